@@ -295,6 +295,21 @@ func pickVer(r *rng, v2bias float64) int {
 	return versions[r.intn(4)]
 }
 
+// anchorSeed identifies the worker process: a few "anchor" vectors per version
+// are derived from it and recur in many runs of that process, so that the
+// same operation on the same value is observed early and late in a process
+// (caches that evict, tables that fill up, recycled buffers).
+var anchorSeed uint64 = 1
+
+func anchors(ver int) []string {
+	r := &rng{s: anchorSeed*0x9e3779b97f4a7c15 + uint64(ver)}
+	var a []string
+	for i := 0; i < 3; i++ {
+		a = append(a, genValid(r, ver))
+	}
+	return a
+}
+
 // genPlan expands a seed into a plan for one property.
 func genPlan(seed uint64, prop string) *Plan { return genPlanOpt(seed, prop, false) }
 
@@ -320,8 +335,11 @@ func genPlanOpt(seed uint64, prop string, cold bool) *Plan {
 
 	nParse := 0
 	hot := prop == "C14" && !cold && r.chance(0.15)
+	sweep := !hot && !cold && r.chance(0.06)
 	if hot {
 		nTasks, nParse = genHot(r, p)
+	} else if sweep {
+		nTasks, nParse = genSweep(r, p)
 	} else {
 		// cells
 		nShared := r.intn(4)
@@ -346,6 +364,9 @@ func genPlanOpt(seed uint64, prop string, cold bool) *Plan {
 		for i := range p.Cells {
 			if p.Cells[i].Init == "?" {
 				p.Cells[i].Init = genValid(r, p.Cells[i].Ver)
+				if r.chance(0.15) {
+					p.Cells[i].Init = r.pick(anchors(p.Cells[i].Ver))
+				}
 				if coldZero && p.Cells[i].Mode != mRO && p.Cells[i].Mode != mROHeap {
 					p.Cells[i].Init = "" // nothing of the library runs before the tasks
 				}
@@ -357,6 +378,9 @@ func genPlanOpt(seed uint64, prop string, cold bool) *Plan {
 		for _, ver := range versions {
 			for k := 2 + r.intn(5); k > 0; k-- {
 				palette[ver] = append(palette[ver], genVector(r, ver))
+			}
+			if r.chance(0.5) {
+				palette[ver] = append(palette[ver], r.pick(anchors(ver)))
 			}
 		}
 		graded := genV2Graded(r)
@@ -613,6 +637,9 @@ func genPlanOpt(seed uint64, prop string, cold bool) *Plan {
 	if hot {
 		p.Policy = "hot-" + p.Policy
 	}
+	if sweep {
+		p.Policy = "sweep-" + p.Policy
+	}
 	return p
 }
 
@@ -677,6 +704,7 @@ func genHot(r *rng, p *Plan) (nTasks, nParse int) {
 	for t := 0; t < nTasks; t++ {
 		var ops []Op
 		own := []int{2 * t, 2*t + 1}
+		pBad := []float64{0, 0.2, 0.2, 1}[r.intn(4)] // per task: never / sometimes / always a failing input
 		for len(ops) < perTask {
 			k := kinds[r.intn(len(kinds))]
 			c := own[r.intn(2)]
@@ -689,7 +717,7 @@ func genHot(r *rng, p *Plan) (nTasks, nParse int) {
 				nParse++
 				op.C, op.V = -1, ver
 				op.S = vals[r.intn(len(vals))]
-				if r.chance(0.2) {
+				if r.chance(pBad) {
 					op.S = bad
 				}
 				if r.chance(0.5) {
@@ -706,6 +734,66 @@ func genHot(r *rng, p *Plan) (nTasks, nParse int) {
 				op.C = -1
 			}
 			ops = append(ops, op)
+		}
+		p.Tasks = append(p.Tasks, ops)
+	}
+	return nTasks, nParse
+}
+
+// genSweep builds a long, cheap history over MANY distinct values of one
+// version: an object is walked through hundreds of values (Set one metric,
+// observe), or hundreds of distinct vectors are parsed, with the process's
+// anchor values coming back now and then. Bounded caches, interning tables
+// and recycling allocators only misbehave once they are full.
+func genSweep(r *rng, p *Plan) (nTasks, nParse int) {
+	ver := pickVer(r, 0.25)
+	sp := specs[ver]
+	nTasks = 1 + r.intn(2)
+	n := []int{100, 200, 400}[r.intn(3)]
+	anc := anchors(ver)
+	parseSweep := r.chance(0.4)
+	for t := 0; t < nTasks; t++ {
+		p.Cells = append(p.Cells, CellSpec{Ver: ver, Mode: mPriv, Owner: t, Init: genValid(r, ver)}, CellSpec{Ver: ver, Mode: mPriv, Owner: t, Init: r.pick(anc)})
+	}
+	for t := 0; t < nTasks; t++ {
+		walk, anchor := 2*t, 2*t+1
+		var ops []Op
+		obs := func(c int) Op {
+			o := Op{K: r.pick([]string{kScore, kVector, kRTrip, kScore, kVector}), C: c, D: -1}
+			if o.K == kScore {
+				o.S = r.pick(apis[ver].ScoreNames())
+			}
+			return o
+		}
+		var seen []string
+		for len(ops) < n {
+			if parseSweep {
+				nParse++
+				s := genValid(r, ver)
+				if len(seen) > 0 && r.chance(0.15) {
+					s = r.pick(seen)
+				} else if r.chance(0.05) {
+					s = r.pick(anc)
+				}
+				if len(seen) < 64 {
+					seen = append(seen, s)
+				}
+				op := Op{K: kParse, V: ver, C: -1, D: -1, S: s}
+				if r.chance(0.3) {
+					op.D = walk
+				}
+				ops = append(ops, op)
+				if op.D >= 0 && r.chance(0.3) {
+					m := sp.Metrics[r.intn(len(sp.Metrics))]
+					ops = append(ops, Op{K: kSet, C: walk, D: -1, S: m.Abv, S2: r.pick(m.Values)})
+				}
+				continue
+			}
+			m := sp.Metrics[r.intn(len(sp.Metrics))]
+			ops = append(ops, Op{K: kSet, C: walk, D: -1, S: m.Abv, S2: r.pick(m.Values)}, obs(walk))
+			if r.chance(0.08) {
+				ops = append(ops, obs(anchor)) // the recurring value
+			}
 		}
 		p.Tasks = append(p.Tasks, ops)
 	}
